@@ -3,7 +3,8 @@ From Coq Require Import String.
 From Boltons Require Import Lib.Prelude Lib.C07_Str Spec.C07_Spec Gen.C07_Gen Model.C07_Model
      Proofs.C07_StrLemmas Proofs.C07_Rds Proofs.C07_Resolve Proofs.C07_Parse Proofs.C07_Navigate
      Proofs.C07_Text Proofs.C07_RfcExamples Gen.C07_Src Proofs.C07_SrcEq Check.C07_Check
-     Proofs.C07_Refine Proofs.C07_RoundTrip Proofs.C07_Unrooted Proofs.C07_Case.
+     Proofs.C07_Refine Proofs.C07_RoundTrip Proofs.C07_Unrooted Proofs.C07_Case
+     Proofs.C07_RefineUnrooted.
 Open Scope N_scope.
 Open Scope list_scope.
 
@@ -202,12 +203,13 @@ Print Assumptions C07_round_trip_base.
 (* the same on TEXTS: for every base text and destination texts in the URL
    type's normal form, the model run by the checker (c07_model: URL(text),
    navigate, navigate, normalize, to_text) produces an observation, and it
-   satisfies c07_holds *)
-Theorem C07_refinement : forall b d1 d2 f1 f2 o0,
+   satisfies c07_holds - whether the base object is the parsed URL or
+   (unrooted = true) the one rebuilt with from_parts(path_parts[1:]) *)
+Theorem C07_refinement : forall b d1 d2 unrooted f1 f2 o0,
   wf_base_text b -> dest_text_ok d1 -> dest_text_ok d2 ->
-  exists o, c07_model (mkCase (to_text b) false (to_text d1) f1 (to_text d2) f2 o0) = Some o /\
-            c07_holds (mkCase (to_text b) false (to_text d1) f1 (to_text d2) f2 o) = true.
-Proof. exact model_on_texts_satisfies_spec. Qed.
+  exists o, c07_model (mkCase (to_text b) unrooted (to_text d1) f1 (to_text d2) f2 o0) = Some o /\
+            c07_holds (mkCase (to_text b) unrooted (to_text d1) f1 (to_text d2) f2 o) = true.
+Proof. exact model_on_texts_satisfies_spec_any_base. Qed.
 Print Assumptions C07_refinement.
 Example C07_refinement_ex :
   wf_base_text ex_base /\ dest_text_ok ex_ref1 /\ dest_text_ok ex_ref2 /\ dest_text_ok ex_abs /\
